@@ -39,6 +39,13 @@ def run(ctx):
     ctx.add_tlc(res, "Split_Gen simulate", "R-generate")
     if not res.emitted:
         raise RuntimeError("Split_Gen produced nothing")
+    # exhaustively: every band job up to 5 channels and every array job up to 3 x 3 (every group of jobs on one file recurs
+    # on every run, whatever the seed)
+    res2 = tlc.run(MODULE, tlc.cfg_with("Split_Gen.cfg", {"MaxN": "5", "MaxH": "3", "MaxW": "3"}, ctx.outdir), ctx.outdir, workers=1, timeout=1800)
+    ctx.add_tlc(res2, "Split_Gen MaxN=5 MaxH=MaxW=3 (exhaustive)", "R-generate")
+    if not res2.emitted:
+        raise RuntimeError("Split_Gen exhaustive produced nothing")
+    res.emitted.extend(res2.emitted)
     work = os.path.join(ctx.outdir, "split")
     os.makedirs(work, exist_ok=True)
     # band jobs are grouped by input file (same N, T, orientation): one file, one output directory, several splits of
